@@ -83,11 +83,12 @@ def _mk_filter(ev, st, prog, **over):
     if not isinstance(obj, Inst):
         raise AnalysisError(f'_TrajectoryDataFilter(...) evaluates to {obj!r}')
     h = st.heap[obj.oid]
-    missing = [k for k in attrs if k not in h]
+    core = ('filter', 'current_flag', 'time_step', 'range_step', 'next_record_distance', 'time_of_last_record')
+    missing = [k for k in list(over) + list(core) if k not in h]
     if missing:
-        raise AnalysisError(f'the recording filter keeps no attribute(s) {missing} after construction: its state is laid out otherwise than '
-                            f'the rules read it')
-    h.update(attrs)
+        raise AnalysisError(f'the recording filter keeps no attribute(s) {sorted(set(missing))} after construction: its state is laid out '
+                            f'otherwise than the rules read it')
+    h.update({k: v for k, v in attrs.items() if k in h})
     return obj
 
 
